@@ -31,8 +31,14 @@ def rd(rel):
     return open(os.path.join(REPO, rel), encoding="utf-8").read()
 
 
-C_TYPES = {"int": "I32", "unsigned int": "U32", "uint32_t": "U32", "int32_t": "I32", "uint64_t": "U64", "int64_t": "I64",
-           "size_t": "U64", "dev_t": "U64", "pathrs_proc_base_t": "U64", "void": "Void", "unsigned long": "U64", "long": "I64"}
+# LP64 (x86_64 / aarch64 Linux): the widths and signedness of the C types a header of this library could plausibly use; a type
+# that is not listed still breaks the extraction (and is reported as such), a listed one gives a concrete mismatch
+C_TYPES = {"int": "I32", "unsigned int": "U32", "unsigned": "U32", "uint32_t": "U32", "int32_t": "I32", "uint64_t": "U64", "int64_t": "I64",
+           "size_t": "U64", "dev_t": "U64", "pathrs_proc_base_t": "U64", "void": "Void", "unsigned long": "U64", "long": "I64",
+           "ssize_t": "I64", "off_t": "I64", "long long": "I64", "unsigned long long": "U64", "intptr_t": "I64", "uintptr_t": "U64",
+           "ptrdiff_t": "I64", "mode_t": "U32", "uid_t": "U32", "gid_t": "U32", "pid_t": "I32", "signed int": "I32", "long int": "I64",
+           "unsigned long int": "U64", "short": "I16", "unsigned short": "U16", "int16_t": "I16", "uint16_t": "U16",
+           "char": "I8", "signed char": "I8", "unsigned char": "U8", "int8_t": "I8", "uint8_t": "U8", "bool": "U8", "_Bool": "U8"}
 
 
 def c_type(t):
@@ -46,7 +52,10 @@ def c_type(t):
 
 
 RS_TYPES = {"c_int": "I32", "RawFd": "I32", "CReturn": "I32", "c_uint": "U32", "u32": "U32", "i32": "I32", "u64": "U64", "i64": "I64",
-            "size_t": "U64", "usize": "U64", "dev_t": "U64", "CBorrowedFd<'_>": "I32", "CProcfsBase": "U64", "()": "Void"}
+            "size_t": "U64", "usize": "U64", "dev_t": "U64", "CBorrowedFd<'_>": "I32", "CProcfsBase": "U64", "()": "Void",
+            "isize": "I64", "ssize_t": "I64", "c_long": "I64", "c_ulong": "U64", "c_longlong": "I64", "c_ulonglong": "U64", "off_t": "I64",
+            "mode_t": "U32", "uid_t": "U32", "gid_t": "U32", "pid_t": "I32", "i16": "I16", "u16": "U16", "c_short": "I16", "c_ushort": "U16",
+            "i8": "I8", "u8": "U8", "c_char": "I8", "c_schar": "I8", "c_uchar": "U8", "bool": "U8"}
 
 
 def rs_type(t):
@@ -269,7 +278,7 @@ def main():
         sys.exit(2)
     L = ["(* GENERATED by tools/abi_extract.py from /repo -- do not edit. *)",
          "From Coq Require Import String List ZArith. Import ListNotations. Open Scope string_scope.",
-         "Inductive cty := I32 | U32 | I64 | U64 | Ptr | Void | Any.",
+         "Inductive cty := I32 | U32 | I64 | U64 | Ptr | Void | Any | I16 | U16 | I8 | U8.",
          "Definition decl := (string * cty * list cty)%type.",
          "Definition hdr_fns : list decl := [%s]." % ";\n  ".join(coq_fn(f) for f in hfns),
          "Definition rs_fns : list decl := [%s]." % ";\n  ".join(coq_fn(f) for f in rfns),
